@@ -212,6 +212,10 @@ func (e *Engine) cycleNextGroup() {
 
 	for {
 		next := e.currentGroup()
+		if next == nil {
+			return
+		}
+
 		if len(next.rows) == 0 {
 			e.cycleNextGroup()
 			continue
@@ -239,6 +243,10 @@ func (e *Engine) cyclePreviousGroup() {
 
 	for {
 		prev := e.currentGroup()
+		if prev == nil {
+			return
+		}
+
 		if len(prev.rows) == 0 {
 			e.cyclePreviousGroup()
 			continue
